@@ -297,8 +297,9 @@ func (w *world) oracleLines(c *Ctx) {
 }
 
 type poolRunner struct {
-	c *Ctx
-	w *world
+	c        *Ctx
+	w        *world
+	timeouts int // ops that ran into a waiting budget (a broken pool, or a badly stalled machine)
 }
 
 func (r *poolRunner) answer(line string, self *goro, settled bool, nontrivial bool) {
@@ -306,6 +307,7 @@ func (r *poolRunner) answer(line string, self *goro, settled bool, nontrivial bo
 	snap, _ := r.w.snapshot()
 	if !settled {
 		ev += " unsettled"
+		r.timeouts++
 	}
 	r.c.Emit(line, ev+" | "+snap, nontrivial)
 	r.w.oracleLines(r.c)
@@ -331,7 +333,12 @@ func (r *poolRunner) do(line string) {
 		c.Emit(line, "bad-op", false)
 		return
 	}
-	const settleT = 3 * time.Second
+	// generous: a loaded machine can stall the whole process for a second or more; the budget
+	// shrinks after repeated timeouts so that a really broken pool does not cost minutes
+	settleT := 30 * time.Second
+	if r.timeouts >= 3 {
+		settleT = 2 * time.Second
+	}
 	switch f[0] {
 	case "reset":
 		if w != nil {
@@ -442,12 +449,17 @@ func (r *poolRunner) do(line string) {
 		cancel()
 		// the cancellation goroutine broadcasts asynchronously: give the waiters of this
 		// context a bounded time to return, then wait for quiescence
-		deadline := time.Now().Add(400 * time.Millisecond)
+		grace := 30 * time.Second
+		if r.timeouts >= 3 {
+			grace = 400 * time.Millisecond
+		}
+		deadline := time.Now().Add(grace)
 		for _, g := range waiting {
 			for !g.finished.Load() && time.Now().Before(deadline) {
 				time.Sleep(100 * time.Microsecond)
 			}
 			if !g.finished.Load() {
+				r.timeouts++
 				c.Hit("cancel:stuck")
 			}
 		}
